@@ -476,7 +476,7 @@ func runMain() int {
 		rep.Infra = append(rep.Infra, rr.Infra...)
 		// cross-build agreement: an outcome the real code produced free-running
 		// ("free:" keys) should be one the explorer reached on the rewritten code
-		var unseen []string
+		unseen := []string{}
 		for k, v := range rr.Outcomes {
 			if strings.HasPrefix(k, "free:") {
 				if _, ok := rep.Outcomes[strings.TrimPrefix(k, "free:")]; !ok {
